@@ -446,6 +446,8 @@ def run(ctx):
     # random surface cases
     # ------------------------------------------------------------------------------------------------------------
     n_random = 1000 if quick else 10000
+    # source hints: travel times tt [s], tt/dt and the delay 2 tt/dt in samples, and the reductions at / around every new float constant of the anchored files
+    hv_tt, hv_red = gen.hint_values(ctx, 0.0, 50.0, cap=24), gen.hint_values(ctx, 0.05, 1.5, cap=8)
     for i in range(n_random):
         dyadic = (i % 2 == 0)
         if dyadic:
@@ -483,8 +485,12 @@ def run(ctx):
                 tts = [rng.randint(0, 10) * dt / 2 for _ in range(m)]
             else:
                 tts = [rng.choice([0.0, rng.uniform(0, 5 * dt), rng.randint(0, 8) * dt / 2]) for _ in range(m)]
+            if hv_tt and rng.random() < 0.3:
+                c = rng.choice(hv_tt)
+                tts[rng.randrange(m)] = rng.choice([x for x in (c, c * dt, c * dt / 2) if x <= 50 * dt] or [0.0])
+                tset = 'mixed' if tset == 'zero' else tset
             stt = rng.choice([0.0, 0.0, dt, 2.5 * dt, rng.uniform(0, 4 * dt)])
-            pick = lambda: rng.choice([1.0, 0.9, 0.5, 0.73, 1.2])  # noqa
+            pick = lambda: rng.choice([1.0, 0.9, 0.5, 0.73, 1.2] + hv_red)  # noqa
         ctx.hist('travel times: ' + tset)
         u = rng.random()
         if u < 0.45:
@@ -610,7 +616,9 @@ def extras(ctx):
     import eqsig
     from eqsig import surface as sf
     rng = ctx.rng
-    for n, m in ([(30000, 40)] if ctx.tier == 'quick' else [(30000, 40), (9000, 130), (60000, 37), (2500, 900)]):
+    for n, m in ([(30000, 40)] if ctx.tier == 'quick' else [(30000, 40), (9000, 130), (60000, 37), (2500, 900)]) + \
+            [(k, 8) for k in gen.hint_sizes(ctx, lo=401, hi=300000, cap=4)] + [(3000, k) for k in gen.hint_sizes(ctx, lo=5, hi=2000, cap=3)] + \
+            [(30000, c // 30000 + 1) for c in gen.hint_sizes(ctx, lo=2 ** 17, hi=12000000, cap=2)]:      # source hints: samples, travel times, grid points around every new integer constant
         dt = 0.01
         a = gen.noise_record(rng, n) * np.exp(-((np.arange(n) - n / 4) / (n / 6)) ** 2)
         tts = np.sort(np.array([rng.uniform(0.0, 0.4) for _ in range(m)]))
